@@ -1,7 +1,6 @@
 (* Extract.v - monolithic extraction of the executable models and specs.
    ExtrOcamlBasic only: bool, option, list, prod, unit, sumbool map to
    OCaml's; N, Z, positive and nat stay the extracted inductives. *)
-Require Import PV.SummaryProofs.
 Require Import PV.Base PV.Dec PV.Dewey PV.DeweySpec PV.Pattern PV.AltSpec PV.Summary PV.Distinfo PV.DigestM PV.Plist PV.PkgPathM PV.ScanIndex PV.Metadata.
 Require Extraction.
 Require Import ExtrOcamlBasic.
